@@ -163,3 +163,125 @@ Example C05_vec_sample_string :
              last (snd (cl_run [] l)) VbUnit = VbVals [[x44]].
 Proof. eexists. split; vm_compute; reflexivity. Qed.
 Print Assumptions C05_vec_sample_string.
+
+(* ======================= the collection layer (L2): map data, graph data, root record =======================
+   mrep g d slots.. t   (CollMap.v) DbMapData: the index record g(index d) = le64 len ++ le64 states ++ le64 keys ++
+                        le64 values, the three vectors (states: MapValueState, keys, values) each satisfying vrep for
+                        the corresponding list of the table t, all footprints pairwise disjoint, cached len = t's len,
+                        the three lists of one length (= capacity)
+   grep g d slots a     (CollGraph.v) GraphDataStorage: the record with the four vector indexes and four DbVec<i64>
+                        representing the slot arrays a (from, to, from_meta, to_meta — the arrays of Graph.v), disjoint *)
+From Agdb Require Import CollSep CollMap CollMapHist CollGraph CollGraphNew CollAgree OpenMap.
+
+(* (b) FULL for the MapData interface: EVERY history of set_state / set_key / set_value / set_len / resize (states,
+   keys, values in this order) / swap / shrink_to_fit / state / key / value / capacity / len, with reloads
+   (DbMapData::from_storage: the index record, then the three vectors) and maintenance of the storage at will, yields
+   the observations of the plain table `ct_run`, in which reload and maintenance do nothing; at the end `mrep` holds
+   for the final table.  The algorithms of multi_map.rs (MultiMapImpl: insert, insert_or_replace, remove_key,
+   remove_value, value, values, iteration, rehash) are written against exactly this interface (trait MapData) and
+   keep no state of their own, so on a reloaded map they compute what they compute on the live one: the reloaded
+   interface is extensionally the same (same answers to every state / key / value / capacity / len, same effect
+   of every mutator).  OpenMap.v (C19) is those algorithms on `ct_omap t`. *)
+Theorem C05_map_history :
+  forall (K V : Type) (EK : cv_elem K) (EV : cv_elem V) (LK : elem_law EK) (LV : elem_law EV) (kdef : K) (vdef : V),
+    el_valid LK kdef -> el_valid LV vdef ->
+  forall (fl : bool) ops d ss ks vs t sp (Q : cres (cm_data * list (cm_obs K V)) -> spec -> Prop),
+    mrep K V EK EV LK LV (hp sp) d ss ks vs t -> sdepth sp = 0 -> Forall (mop_ok K V EK EV LK LV) ops ->
+    (forall d' ss' ks' vs' sp', mrep K V EK EV LK LV (hp sp') d' ss' ks' vs' (fst (ct_run K V kdef vdef t ops)) ->
+        cm_index d' = cm_index d -> sdepth sp' = 0 ->
+        frame (hp sp) (hp sp') (mfoot K V EK EV LK LV d ss ks vs) (mfoot K V EK EV LK LV d' ss' ks' vs') ->
+        Q (CrOk (d', snd (ct_run K V kdef vdef t ops))) sp') ->
+    cwp fl (cm_run K V EK EV kdef vdef d ops) sp Q.
+Proof. exact cm_run_spec. Qed.
+Print Assumptions C05_map_history.
+
+(* the reload alone: the same table through the reloaded interface *)
+Theorem C05_map_reload :
+  forall (fl : bool) (K V : Type) (EK : cv_elem K) (EV : cv_elem V) (LK : elem_law EK) (LV : elem_law EV) d ss ks vs t sp,
+    mrep K V EK EV LK LV (hp sp) d ss ks vs t ->
+    cwp fl (cm_from_storage K V EK EV (cm_index d)) sp
+        (fun r sp' => exists d', r = CrOk d' /\ sp' = sp /\ mrep K V EK EV LK LV (hp sp) d' ss ks vs t).
+Proof. exact map_loads. Qed.
+Print Assumptions C05_map_reload.
+
+(* on the model of storage.rs, from DbMapData::new on a fresh storage; instances: <u64,u64> (e.g. ids) and
+   <String,u64> (the alias map's key type: every key is an out-of-line record owned by its slot) *)
+Theorem C05_map_history_on_storage_u64 :
+  forall (ops : store_ops cdata) (fl : bool), kind ops fl ->
+  forall l : list (cm_op N N), Forall (mop_ok N N ce_u64 ce_u64 law_u64 law_u64) l ->
+    let r := cp_run (st_step cdata ops) (d <~ cm_new ;; cm_run N N ce_u64 ce_u64 0 0 d l) s_init in
+    snd r = CrDead \/
+    exists d' sp' ss ks vs, snd r = CrOk (d', snd (ct_run N N 0 0 (ct_empty N N) l)) /\ Rel (fst r) sp' /\
+       mrep N N ce_u64 ce_u64 law_u64 law_u64 (hp sp') d' ss ks vs (fst (ct_run N N 0 0 (ct_empty N N) l)).
+Proof. exact (cm_history_on_storage N N ce_u64 ce_u64 law_u64 law_u64 0 0 eq_refl eq_refl). Qed.
+Print Assumptions C05_map_history_on_storage_u64.
+
+Theorem C05_map_history_on_storage_string :
+  forall (ops : store_ops cdata) (fl : bool), kind ops fl ->
+  forall l : list (cm_op bytes N), Forall (mop_ok bytes N ce_string ce_u64 law_string law_u64) l ->
+    let r := cp_run (st_step cdata ops) (d <~ cm_new ;; cm_run bytes N ce_string ce_u64 [] 0 d l) s_init in
+    snd r = CrDead \/
+    exists d' sp' ss ks vs, snd r = CrOk (d', snd (ct_run bytes N [] 0 (ct_empty bytes N) l)) /\ Rel (fst r) sp' /\
+       mrep bytes N ce_string ce_u64 law_string law_u64 (hp sp') d' ss ks vs (fst (ct_run bytes N [] 0 (ct_empty bytes N) l)).
+Proof. exact (cm_history_on_storage bytes N ce_string ce_u64 law_string law_u64 [] 0 (conj eq_refl eq_refl) eq_refl). Qed.
+Print Assumptions C05_map_history_on_storage_string.
+
+(* (c) FULL for the GraphData interface: EVERY history of set / get of from, to, from_meta, to_meta at a graph index,
+   grow (four pushes), shrink_to_fit, capacity, with reloads (GraphDataStorage::from_storage) and maintenance of
+   the storage at will, yields the observations of the four plain arrays (ga_run; node_count / free_index are reads
+   of to_meta[0] / from_meta[0]); the algorithms of graph.rs (GraphImpl) are written against this interface (trait
+   GraphData) and keep no state of their own: Graph.v (C08) is those algorithms on the arrays. *)
+Theorem C05_graph_history :
+  forall (fl : bool) ops d s a sp (Q : cres (cg_data * list cg_obs) -> spec -> Prop),
+    grep (hp sp) d s a -> sdepth sp = 0 -> gops_ok a ops ->
+    (forall d' s' sp', grep (hp sp') d' s' (fst (ga_run a ops)) -> cg_index d' = cg_index d -> sdepth sp' = 0 ->
+        frame (hp sp) (hp sp') (gfoot d s) (gfoot d' s') -> Q (CrOk (d', snd (ga_run a ops))) sp') ->
+    cwp fl (cg_run d ops) sp Q.
+Proof. exact cg_run_spec. Qed.
+Print Assumptions C05_graph_history.
+
+(* from GraphDataStorage::new (arrays [0] [0] [i64::MIN] [0]) on the model of storage.rs *)
+Theorem C05_graph_history_on_storage :
+  forall (ops : store_ops cdata) (fl : bool), kind ops fl ->
+  forall l : list cg_op, gops_ok ga_init l ->
+    let r := cp_run (st_step cdata ops) (d <~ cg_new ;; cg_run d l) s_init in
+    snd r = CrDead \/
+    exists d' sp' s, snd r = CrOk (d', snd (ga_run ga_init l)) /\ Rel (fst r) sp' /\ grep (hp sp') d' s (fst (ga_run ga_init l)).
+Proof. exact cg_history_on_storage. Qed.
+Print Assumptions C05_graph_history_on_storage.
+
+(* the root record (DbStorageIndex at storage index 1): what try_new_with_storage stores is what the next open
+   reads, for every record map in which record 1 holds it — hence after reopen / optimize / backup (L1) too.
+   PARTIAL as a statement about DbImpl: the composition root -> graph + aliases (two maps) + indexes (a vector of
+   (value index, multi-map index) pairs) + values (a vector of vector indexes) into ONE invariant of the whole
+   database file is not assembled; each component is covered by the theorems above. *)
+Theorem C05_root_roundtrip_partial :
+  forall (fl : bool) r,
+    cr_u64 r ->
+    (forall x sp (Q : cres unit -> spec -> Prop), hp sp 1 = Some x -> lenN x = 48 ->
+       (forall sp', heq (hp sp') (hupd (hp sp) 1 (cr_ser r)) -> sdepth sp' = sdepth sp -> Q (CrOk tt) sp') ->
+       cwp fl (cr_store r) sp Q) /\
+    (forall sp (Q : cres cr_root -> spec -> Prop), hp sp 1 = Some (cr_ser r) -> Q (CrOk r) sp -> cwp fl cr_load sp Q).
+Proof. intros fl r Hb. split; [intros x sp Q; apply cr_store_spec|intros sp Q Hg; apply cr_load_spec; assumption]. Qed.
+Print Assumptions C05_root_roundtrip_partial.
+
+(* ---- non-vacuity ---- *)
+Example C05_map_sample_string :
+  let l : list (cm_op bytes N) :=
+           [MoResize 3; MoSetKey 1 [x41; x42]; MoSetState 1 StValid; MoSetValue 1 7; MoSetLen 1;
+            MoReload; MoSwap 1 2; MoMaint SOptimize; MoMaint SReopen; MoReload;
+            MoKey 2; MoState 2; MoValue 2; MoCapLen; MoKey 5] in
+  exists d', snd (cp_run (st_step cdata ops_file) (d <~ cm_new ;; cm_run bytes N ce_string ce_u64 [] 0 d l) s_init)
+               = CrOk (d', snd (ct_run bytes N [] 0 (ct_empty bytes N) l)) /\
+             skipn 10 (snd (ct_run bytes N [] 0 (ct_empty bytes N) l)) =
+               [MbKey [x41; x42]; MbState StValid; MbVal 7; MbNums 3 1; MbErr CvIndex].
+Proof. eexists. split; vm_compute; reflexivity. Qed.
+Print Assumptions C05_map_sample_string.
+
+Example C05_graph_sample :
+  let l := [GoGrow; GoGrow; GoSet GfFrom 1 (-1); GoSet GfToMeta 0 1; GoReload; GoMaint SOptimize; GoMaint SReopenCopy; GoReload;
+            GoGet GfFrom (-1); GoGet GfToMeta 0; GoGet GfFromMeta 0; GoCap; GoGet GfTo 3] in
+  exists d', snd (cp_run (st_step cdata ops_mem) (d <~ cg_new ;; cg_run d l) s_init) = CrOk (d', snd (ga_run ga_init l)) /\
+             skipn 8 (snd (ga_run ga_init l)) = [GbVal (-1); GbVal 1; GbVal cg_i64_min; GbNum 3; GbErr CvIndex].
+Proof. eexists. split; vm_compute; reflexivity. Qed.
+Print Assumptions C05_graph_sample.
